@@ -337,6 +337,15 @@ pub fn generate(seed: u64, run: u64, prop: &str) -> Generated {
         params.tau_share = *rx.pick(&[0.001, 0.01, 0.02, 0.04, 0.049, 0.96, 0.99, 0.999]);
         tags.push("extreme_tau_share".into());
     }
+    // budgets far from the usual order of magnitude
+    if rx.chance(0.06) {
+        params.epsilon = *rx.pick(&[0.001, 0.01, 30.0, 100.0]);
+        tags.push("extreme_epsilon".into());
+    }
+    if rx.chance(0.06) {
+        params.delta = *rx.pick(&[1e-12, 1e-10, 0.05, 0.2]);
+        tags.push("extreme_delta".into());
+    }
     // a cap far from any default a parameter conversion could silently fall back to
     if rx.chance(0.08) {
         params.cu = *rx.pick(&[12u64, 20, 50]);
